@@ -14,8 +14,8 @@ from ..core import err_kind, scratch_dir
 
 ID = "C18"
 SHAPES = False      # layout / object-history dimensions do not apply: the inputs are names and files
-MODULES = ["TWV.Properties.C18"]
-TRANSLATORS = ["t2_tables"]
+MODULES = ["TWV.Tie.LoaderProtocol", "TWV.Properties.C18"]
+TRANSLATORS = ["t7_loader", "t2_tables"]
 TIE = ("translator T2 regenerates the dataset tables from the loader modules of the working tree (the C18 table theorems are "
        "re-decided by the kernel); plus an exhaustive correspondence of load_dataset with the name-resolution model")
 RULE = ("exhaustive over the finite configuration space: all documented names (19 bundled + 76 remote) x spelling variants "
